@@ -66,6 +66,7 @@ func init() {
 }
 
 func runC33(c *Ctx) {
+	c33EveryCertificateCovers(c)
 	// AS lists are ordered SEQUENCE OF fields: encoding and decoding map them element by element, in order
 	for _, q := range []struct{ fn, param string }{{"pkg/scrypto/cppki.encodeASes", "arg0"}, {"pkg/scrypto/cppki.decodeASes", "arg0"},
 		{"pkg/scrypto/cppki.encodeCertificates", "arg0"}, {"pkg/scrypto/cppki.decodeCertificates", "arg0"},
